@@ -336,6 +336,19 @@ pub fn steer_liquidatable(tr: &mut Tracer, w: &mut World, rng: &mut Rng, v: u32,
     let d = unit(w.d.decimals);
     // one time in six the liquidation happens with the price exactly on the edge of the per-block band: a small trade
     // by somebody else moves the price in this block, and the limit is then set so that the edge is the current price
+    // one time in three a funding settlement happens first, so that the position owes (or is owed) funding when
+    // its liquidation ratio is evaluated
+    if rng.chance(1, 3) {
+        let fp = vamm_cfg(w, v).funding_period;
+        tr.step(w, &Op::Block { dt: fp + 1 + rng.below(100), dh: 1 });
+        let spot: Option<Uint128> = w.q(&w.addr(v), &mv::QueryMsg::SpotPrice {});
+        if let Some(sp) = spot {
+            let nowt = w.app.block_info().time.seconds();
+            let pz = match rng.below(4) { 0 => sp.u128() * 97 / 100, 1 => sp.u128() * 103 / 100, 2 => sp.u128() * 90 / 100, _ => sp.u128() * 110 / 100 };
+            tr.step(w, &Op::Feed { sender: ID_OWNER, m: PMsg::Append { price: pz.max(1), t: nowt } });
+        }
+        tr.step(w, &Op::Eng { sender: STRANGER, funds: 0, m: EMsg::PayFunding { vamm: v } });
+    }
     let edge = rng.chance(1, 6);
     if edge {
         let others: Vec<u32> = TRADERS.iter().cloned().filter(|x| *x != t).collect();
